@@ -19,19 +19,20 @@ PROP = dict(
     ],
     assumptions=[
         "coordinates are finite f64 whose binary32 image is finite; weights are non-negative integers whose sum is below 2^53",
-        "rcb_split_balanced holds under the named exactness hypotheses of Section Balance (distance sign, strict monotonicity of the "
-        "rounded distance on the points, soundness of the `max <= target + distance` test, midpoint between its arguments); "
-        "they are not discharged for SpecFloat: the three open known-finding classes are exactly inputs where one of them fails",
+        "C04_rcb_split_balanced_partial has the premise MidSpec (f32_mid true): the midpoint `min/2 + max/2` of two finite binary32 values "
+        "is finite and, when it is not strictly between them, no finite value is -- true of IEEE binary32, NOT proved for SpecFloat here",
+        "box_ok32 (the root box, f64 min/max then `as f32`, encloses the binary32 coordinates) is a decidable premise evaluated on every "
+        "in-contract case by Run/RunC04.v (a false would count as a correspondence failure)",
     ],
 )
 
 MANIFEST = dict(
     text="Theorem rcb_split_balanced (loop invariant of the repaired cut search, every exit) proved for all inputs and split trees under "
-         "named exactness hypotheses on the float operations, with refutation witnesses for the three old stop rules and for the three "
-         "float-edge defects still present at HEAD; a checker proved sound for `within tolerance or bracketing` judges every bisection of "
+         "two named hypotheses on the midpoint expression (not discharged for SpecFloat: partial), with refutation witnesses for the three "
+         "old stop rules and for the three float-edge defects found while modelling (repaired in /repo: 241da30, a287019, 6449881); a checker proved sound for `within tolerance or bracketing` judges every bisection of "
          "every implementation output; model and implementation are compared on generated inputs (exact ids).",
     design_ref="DESIGN.md §7 C04",
-    note="Trusted: Coq kernel; differential run; SpecFloat = hardware binary32/64. The full statement is proved only under the exactness "
-         "hypotheses (partial); outside them the certified checker and the correspondence carry the claim. No axioms.",
+    note="Trusted: Coq kernel; differential run; SpecFloat = hardware binary32/64. The full statement has the premise MidSpec "
+         "(partial); the certified checker and the exact-ids correspondence carry the claim. No axioms.",
     technique="Coq proof (loop invariant) + refutation witnesses by vm_compute + model/implementation correspondence + certified checker",
 )
